@@ -993,6 +993,7 @@ def oracle(sim: Sim, plan: dict) -> list[dict]:
                 if d["out"] != "ok" or d["vals"] != want_vals:
                     v("C19.equiv", "values", f"{where}: injected {d['vals']} ({d['out']}), explicit lookups give {want_vals}")
                     v("C02.lookup", "inject_disagrees", f"{where}: injected parameters {d['vals']} ({d['out']}) disagree with the explicit lookups {want_vals}")
+                    v("C04.same", "inject_disagrees", f"{where}: injected parameters {d['vals']} ({d['out']}) disagree with the explicit lookups {want_vals}")
                 if d["passthrough"] is not True:
                     v("C19.passthrough", "args", f"{where}: ordinary arguments did not pass through unchanged")
                 for (t, n, _o), val in zip(b["deps"], want_vals):
@@ -1001,12 +1002,14 @@ def oracle(sim: Sim, plan: dict) -> list[dict]:
                 if d["out"] not in ("factory_raised",) and not (d["out"] == "notfound" and L["runs"]):
                     v("C19.equiv", "factory", f"{where}: expected the factory's failure, got {d['out']}/{d['vals']}")
                     v("C02.lookup", "inject_disagrees", f"{where}: the explicit lookup fails with the factory's error, the injected call gave {d['out']}/{d['vals']}")
+                    v("C04.same", "inject_disagrees", f"{where}: the explicit lookup fails with the factory's error, the injected call gave {d['out']}/{d['vals']}")
                 if d["body_ran"]:
                     v("C19.before_body", "factory", f"{where}: function body ran although a dependency's factory failed")
             else:
                 if d["out"] != want_out:
                     v("C19.equiv", want_out, f"{where}: expected {want_out}, got {d['out']}/{d['vals']}")
                     v("C02.lookup", "inject_disagrees", f"{where}: the explicit lookup gives {want_out}, the injected call gave {d['out']}/{d['vals']}")
+                    v("C04.same", "inject_disagrees", f"{where}: the explicit lookup gives {want_out}, the injected call gave {d['out']}/{d['vals']}")
                 if d["body_ran"]:
                     v("C19.before_body", want_out, f"{where}: function body ran although a dependency lookup failed")
         elif kind == "inj_late":
